@@ -9,6 +9,11 @@
 // loop body k and 4k times under small limits: both complete, nothing is left behind and the
 // high-water marks do not grow with the iteration count.
 //
+// Naming dimension: limits count things, whatever they are called. The limit families are re-run
+// with long function names and long module names (entry module / imported module): the verdicts
+// must be the same as with short names, in particular the fatal interrupt must still be delivered
+// (a back end renders the names of the functions on the call stack when it reports one).
+//
 // families.go holds the recursion shapes (what the recursion cycle is made of) and the generated
 // iteration bodies which leave an unfinished expression (operand context x exit kind x shape x loop).
 package c09
@@ -37,6 +42,7 @@ func (c09) Info(tier string) fw.Info {
 		Level: "exploration",
 		Rule: "parametric families rec(d) (call depth), nest(n) (operand nesting: right-nested sums, list literals, call arguments), locals(l,d) (locals per frame x depth) with parameters below/at/just above/far above each limit, x limit triples from {4,16,64,500}^3 on the VM and call limits {4,64,1000} on the interpreter; " +
 			"recursion shapes (mutual, call in argument position, under try, through a function literal; interpreter only: cycles made of capturing function literals reaching themselves through a list / an object / each other / a named function / with a builtin on every level) around each call limit; " +
+			"naming dimension: the limit families (recursion shapes, nest-sum/-args/-list held in a function, locals) with function names of 12/18/40/150 characters and the callables in the entry module main, in an entry module with a 30-character name or in an imported module with a 30/120-character name, just within and far above the limit the family works against, on both back ends (quick: a seed-rotated third of family x naming x limit value); " +
 			"plus iter(k, body) for ~45 loop bodies and for generated bodies {~40 operand contexts: right operands, compound and place assignments, index, list/object literal elements, range end, arguments of named functions, function values, host-provided globals and member functions, try/match/if/loop in operand position} x {continue, break, return, throw} x {shape of the leaving expression} x {kind of loop left} (thorough: complete product, quick: two seed-rotated shape/loop combinations per context x exit), run k and 4k times under small limits (leak oracle: residue 0 and equal high-water marks). Demands are measured with the step hook under huge limits; non-trivial = a limit was actually decisive (demand within overshoot of a limit, or exceeded) or a leak comparison was made; distinct = (program, limits)",
 		Assumptions: []string{
 			"overshoot bound = 50 entries: the limits are checked once per 50-instruction cycle",
@@ -57,7 +63,16 @@ type Payload struct {
 	Ls     uint   `json:"ls"`
 	Lm     uint   `json:"lm"`
 	Tree   uint   `json:"tree,omitempty"` // interpreter call limit (0 = VM case)
+	// naming dimension (families.go): length of the function names (0 = the short originals),
+	// placement of the callables ("" | "entry" | "import") and length of that module's name
+	NameLen int    `json:"nl,omitempty"`
+	Mod     string `json:"mod,omitempty"`
+	ModLen  int    `json:"ml,omitempty"`
 }
+
+// named: the case belongs to the naming dimension; the nest families then hold their expression
+// in a function of their own (so that there is a name to vary and a function to place).
+func (p Payload) named() bool { return p.NameLen > 0 || p.Mod != modMain }
 
 type body struct {
 	name  string
@@ -135,6 +150,22 @@ func iterProgram(b body, k int) string {
 
 func familyProgram(p Payload) string {
 	switch p.Family {
+	case "nest-sum", "nest-list", "nest-args":
+		if p.named() {
+			q := p
+			q.NameLen, q.Mod, q.ModLen = 0, modMain, 0
+			flat := familyProgram(q)
+			at := strings.Index(flat, "fn main() { ")
+			stmts := strings.TrimSuffix(flat[at+len("fn main() { "):], " }\n")
+			if p.Family == "nest-list" {
+				stmts = strings.TrimSuffix(stmts, "println(1);") + "1"
+			} else {
+				stmts = strings.TrimSuffix(strings.TrimPrefix(stmts, "println("), ");")
+			}
+			return flat[:at] + "fn w() -> int { " + stmts + " }\nfn main() { println(w()); }\n"
+		}
+	}
+	switch p.Family {
 	case "nest-sum":
 		return "fn main() { println(" + strings.Repeat("1 + (", p.A) + "1" + strings.Repeat(")", p.A) + "); }\n"
 	case "nest-list":
@@ -170,6 +201,30 @@ func familyProgram(p Payload) string {
 		return rf.program(p.A)
 	}
 	panic("c09: unknown family " + p.Family + "/" + p.Body)
+}
+
+// familySources applies the naming dimension to the family program: sources and entry module.
+func familySources(p Payload) (drive.Sources, string) {
+	src, entry, ok := applyNaming(familyProgram(p), p.NameLen, p.Mod, p.ModLen)
+	if !ok {
+		panic(fmt.Sprintf("c09: module placement %q not applicable to %s", p.Mod, p.Family))
+	}
+	return drive.Sources(src), entry
+}
+
+// renderSources: the program text for messages (all modules, entry last).
+func renderSources(src drive.Sources, entry string) string {
+	if len(src) == 1 {
+		return src[entry]
+	}
+	var sb strings.Builder
+	for _, m := range drive.SortedKeys(src) {
+		if m != entry {
+			sb.WriteString("// module " + m + "\n" + src[m])
+		}
+	}
+	sb.WriteString("// module " + entry + "\n" + src[entry])
+	return sb.String()
 }
 
 func (c09) Cases(tier string, seed uint64) []fw.Case {
@@ -248,6 +303,69 @@ func (c09) Cases(tier string, seed uint64) []fw.Case {
 			}
 		}
 	}
+	// naming dimension: the same limit families with function names of several lengths, placed in
+	// the entry module "main", in a long-named entry module or in a long-named imported module;
+	// parameters just within and far above the limit the family works against. Quick runs a third
+	// of (family x naming x limit value), rotated by the seed: every family meets every naming.
+	type naming struct {
+		nameLen int
+		mod     string
+		modLen  int
+	}
+	var namings []naming
+	for _, nl := range []int{0, 12, 18, 40, 150} {
+		for _, m := range []naming{{0, modMain, 0}, {0, modEntry, 30}, {0, modImport, 30}, {0, modImport, 120}} {
+			if nl != 0 || m.mod != modMain {
+				namings = append(namings, naming{nl, m.mod, m.modLen})
+			}
+		}
+	}
+	for fi, nf := range namingFamilies {
+		perLevel := 1
+		if rf, ok := recFamilies[nf.family]; ok {
+			perLevel = rf.perLevel
+		}
+		for ni, nm := range namings {
+			for li := 0; li < 3; li++ {
+				if !thorough && (fi+ni+li+int(seed%3))%3 != 0 {
+					continue
+				}
+				p := Payload{Family: nf.family, B: nf.locals, Lc: 500, Ls: 500, Lm: 500, NameLen: nm.nameLen, Mod: nm.mod, ModLen: nm.modLen}
+				var ds []int
+				switch nf.limit {
+				case 'c':
+					p.Lc = lims[li]
+					ds = []int{(int(p.Lc) - 3) / perLevel, (int(p.Lc) + overshoot + 5) / perLevel}
+				case 's':
+					p.Ls = lims[li]
+					ds = []int{int(p.Ls) - 3, int(p.Ls) + overshoot + 5}
+				case 'm':
+					p.Lm = lims[li+1]
+					ds = []int{int(p.Lm) / (nf.locals + 1) / 2, int(p.Lm) / (nf.locals + 1) * 3}
+				}
+				for _, d := range ds {
+					if d > 0 {
+						p.A = d
+						add(p)
+					}
+				}
+			}
+			// interpreter: the recursion shapes around two call limits
+			if _, ok := recFamilies[nf.family]; !ok {
+				continue
+			}
+			for li, lc := range []uint{4, 64} {
+				if !thorough && (fi+ni+li+int(seed%3))%3 != 0 {
+					continue
+				}
+				for _, d := range []int{(int(lc) - 6) / perLevel, (int(lc) + 6) / perLevel} {
+					if d > 0 {
+						add(Payload{Family: nf.family, A: d, Tree: lc, NameLen: nm.nameLen, Mod: nm.mod, ModLen: nm.modLen})
+					}
+				}
+			}
+		}
+	}
 	// leak oracle
 	k := 2000
 	if thorough {
@@ -274,15 +392,18 @@ var huge = runtime.CoreLimits{CallStackMaxSize: 1 << 20, StackMaxSize: 1 << 20, 
 func (c09) Run(c fw.Case) fw.Result {
 	var p Payload
 	fw.Decode(c, &p)
-	src := drive.Sources{"main": familyProgram(p)}
+	src, entry := familySources(p)
 	res := fw.Result{Verdict: fw.Held, Cover: []string{"family:" + p.Family}}
-	ao := drive.Analyze(src, "main", true)
+	if p.named() {
+		res.Cover = append(res.Cover, fmt.Sprintf("naming:%s:name=%d,module=%s%d", p.Family, p.NameLen, p.Mod, p.ModLen))
+	}
+	ao := drive.Analyze(src, entry, true)
 	if ao.Errors > 0 {
-		res.Verdict, res.Sig, res.Why = fw.Violated, "harness:program-rejected", "family program rejected: "+ao.ErrorSummary()+"\n"+src["main"]
+		res.Verdict, res.Sig, res.Why = fw.Violated, "harness:program-rejected", "family program rejected: "+ao.ErrorSummary()+"\n"+renderSources(src, entry)
 		return res
 	}
 	fail := func(sig, why string) {
-		why += "\n--- program (" + fmt.Sprintf("%+v", p) + ")\n" + util.Clip(src["main"], 1200)
+		why += "\n--- program (" + fmt.Sprintf("%+v", p) + ")\n" + util.Clip(renderSources(src, entry), 1200)
 		if res.Verdict == fw.Violated {
 			res.More = append(res.More, fw.SubViolation{Sig: sig, Why: why})
 			return
@@ -290,10 +411,10 @@ func (c09) Run(c fw.Case) fw.Result {
 		res.Verdict, res.Sig, res.Why = fw.Violated, sig, why
 	}
 	if p.Tree != 0 {
-		runTree(p, ao, src, &res, fail)
+		runTree(p, ao, src, entry, &res, fail)
 		return res
 	}
-	prog, err := drive.Compile(ao.Modules, "main")
+	prog, err := drive.Compile(ao.Modules, entry)
 	if err != nil {
 		fail("harness:compile", err.Error())
 		return res
@@ -339,9 +460,9 @@ func (c09) Run(c fw.Case) fw.Result {
 		// leak oracle: 4k iterations under the same small limits
 		p4 := p
 		p4.A = p.A * 4
-		src4 := drive.Sources{"main": familyProgram(p4)}
-		ao4 := drive.Analyze(src4, "main", true)
-		prog4, _ := drive.Compile(ao4.Modules, "main")
+		src4, _ := familySources(p4)
+		ao4 := drive.Analyze(src4, entry, true)
+		prog4, _ := drive.Compile(ao4.Modules, entry)
 		run4 := drive.RunCompiled(prog4, src4, drive.VMOpts{Limits: lim, StepBudget: 800_000_000}, nil)
 		res.Cover = append(res.Cover, bodyCover("body:", p.Body)...)
 		// demands must not grow with the iteration count (measured under huge limits)
@@ -377,8 +498,8 @@ func (c09) Run(c fw.Case) fw.Result {
 	return res
 }
 
-func runTree(p Payload, ao drive.AnalyzeOut, src drive.Sources, res *fw.Result, fail func(string, string)) {
-	tr := drive.RunTree(ao.Modules, src, "main", drive.TreeOpts{CallLimit: p.Tree, StepBudget: 400_000_000})
+func runTree(p Payload, ao drive.AnalyzeOut, src drive.Sources, entry string, res *fw.Result, fail func(string, string)) {
+	tr := drive.RunTree(ao.Modules, src, entry, drive.TreeOpts{CallLimit: p.Tree, StepBudget: 400_000_000})
 	o := tr.Outcome
 	res.Nontrivial = true
 	rf, isRec := recFamilies[p.Family]
@@ -410,7 +531,7 @@ func (c09) OnCrash(c fw.Case, cr fw.Crash) fw.Result {
 	}
 	return fw.Result{Verdict: fw.Violated, Nontrivial: true,
 		Sig: fmt.Sprintf("crash:%s:%s:%s", cr.Kind, util.NormPanic(cr.Message), cr.TopFrame),
-		Why: fmt.Sprintf("the host process died (%s: %s) at %s for %+v\n%s", cr.Kind, util.Clip(cr.Message, 300), cr.TopFrame, p, util.Clip(familyProgram(p), 800))}
+		Why: fmt.Sprintf("the host process died (%s: %s) at %s for %+v\n%s", cr.Kind, util.Clip(cr.Message, 300), cr.TopFrame, p, util.Clip(renderSources(familySources(p)), 800))}
 }
 
 // bodyCover: coverage keys of an iteration body (the generated exit bodies are counted per coordinate).
